@@ -1,7 +1,7 @@
 (** C12 -- witnesses: the faithful models violate the full-strength statements on the
     unchanged tree (each witness replayed on the implementation is a known finding). *)
 From Coq Require Import List Bool ZArith.
-From SV Require Import C12.Slice C12.SliceThm C12.Shape C12.Expr C12.ExprSpec.
+From SV Require Import C12.Slice C12.SliceThm C12.Shape C12.Expr C12.ExprSpec C12.FiniteDiff.
 Import ListNotations.
 Open Scope Z_scope.
 
@@ -43,3 +43,10 @@ Qed.
 
 (* C12_replicated_default_axis_refuted removed: repaired in /repo (fix 760899e); the positive statement is
    Properties/C12.v C12_replicated_default_axis_rejected. *)
+
+(** SingleAxisFiniteDifference with an axis below -rank: accepted, declared shape unchanged,
+    evaluation differences the axis counted from the end; the documented rule rejects it *)
+Lemma C12_fd_negative_axis_refuted : exists s ax,
+  safd_spec s ax None None false = None /\
+  safd_declared s ax None None false <> safd_actual s ax None None false.
+Proof. exists [3; 4], (-3). vm_compute. split; [reflexivity|discriminate]. Qed.
